@@ -71,6 +71,7 @@ inductive Inst where
 
 structure Desc where
   insts : Array Inst
+  names : Array String := #[]   -- TL name of every instance (optional trailing `N` section; used by the JSON model for union variant names)
   deriving Repr, Inhabited
 
 def Desc.get? (d : Desc) (i : Nat) : Option Inst := d.insts[i]?
@@ -188,8 +189,17 @@ def pInst : P Inst
     pure (.dict { isTuple := false, dynamic := false, count := 0, nparams := np, elem := f, hasTL2 := flag fl 16 }, ts)
   | _ => none
 
+def pWord : P String
+  | t :: r => some (t, r)
+  | [] => none
+
 def parseDesc (ts : List String) : Option Desc := do
   let (is, rest) ← pCounted pInst ts
-  if rest.isEmpty then pure { insts := is.toArray } else none
+  match rest with
+  | [] => pure { insts := is.toArray }
+  | "N" :: rest =>
+    let (ns, rest) ← pCounted pWord rest
+    if rest.isEmpty then pure { insts := is.toArray, names := ns.toArray } else none
+  | _ => none
 
 end TLVerif.Codec
